@@ -421,6 +421,22 @@ GOLDEN["golden_freevars.json"] = ({}, [
 ])
 
 
+_IN = "zydeco_surface::textual::intention::"
+INTENT_SPEC = {
+    "calls": [("line_extent", r"SurfaceIntentions::line_extent$"), ("presentation_start", r"SurfaceIntentions::presentation_start$"),
+              ("break_intent", r"SurfaceIntentions::break_intent$"), ("between", r"BreakIntent::between$"),
+              ("contains_blank_line_between", r"::contains_blank_line_between$"), ("get", r"::get$"), ("variant", r"BreakIntent::\\w+$")],
+    "ctors": [], "assign": [], "branch_ifs": True, "branch_matches": True, "returns": True,
+}
+GOLDEN["golden_intent.json"] = (INTENT_SPEC, [
+    ("SurfaceIntentions::at", _IN + "SurfaceIntentions::at", "armexpr"),
+    ("SurfaceIntentions::break_intent", _IN + "SurfaceIntentions::break_intent", "seqwhole"),
+    ("SurfaceIntentions::presentation_start", _IN + "SurfaceIntentions::presentation_start", "seqwhole"),
+    ("BreakIntent::between", _IN + "BreakIntent::between", "bodyexpr"),
+    ("BreakIntent::requires_line_break", _IN + "BreakIntent::requires_line_break", "bodyexpr"),
+])
+
+
 def compute(facts, fname):
     spec, fns = GOLDEN[fname]
     out = {}
@@ -431,6 +447,16 @@ def compute(facts, fname):
             t = extract_seq_whole(facts, fn, spec)
         elif mode == "armexpr":
             t = extract_armexpr(facts, fn)
+        elif mode == "bodyexpr":
+            h = facts.hir(fn)
+            if h is None:
+                t = None
+            else:
+                env = A.ArmEnv()
+                env.strip = True
+                env.bind_params(h)
+                env.absorb(h["body"])
+                t = {"(whole body)": {"events": [A.sexpr(h["body"], env)], "ln": facts.bodies()[fn]["loc"][1]}}
         else:
             t = extract(facts, fn, spec) if mode == "match" else extract_whole(facts, fn, spec)
         out[label] = {"fn": fn, "arms": None if t is None else {k: v["events"] for k, v in t.items()},
